@@ -228,8 +228,17 @@ class Model:
                 # n declared absorbed the change (known finding, keyed separately).
                 ctx['maybe'].add(n)
                 return self.run_script(n, ctx, 'extra-edge:' + trig)
-        if s == 'dirty' and not forced and (why or '').startswith('dep-failed:') and ctx['obs'] is not None and n not in ctx['obs']:
-            d = why.split(':', 1)[1]
+        if s == 'dirty' and not forced and ctx['obs'] is not None and n not in ctx['obs'] and (why or '').startswith(('dep-failed:', 'dep-dirty:')):
+            # follow the chain of reasons down to its root
+            w, hops = why, 0
+            while w and w.startswith('dep-dirty:') and hops < 20:
+                x = w.split(':', 1)[1]
+                hops += 1
+                if x not in self.R or self.R[x].stamped:
+                    w = None
+                    break
+                _, w = self.status(x, ctx, {})
+            d = w.split(':', 1)[1] if (w or '').startswith('dep-failed:') else None
             if d in self.R and self.R[d].stamped and ctx['done'].get(d) is False:
                 # d is a checksummed dependency that failed in this run.  If redo judged n before d had failed,
                 # n was only "maybe dirty" and d was tried out of band on n's behalf: then n's script never
@@ -237,6 +246,10 @@ class Model:
                 ctx['maybe'].add(n)
                 ctx['notrun_failed'].add(n)
                 ctx['done'][n] = False
+                # the same out-of-band round also covered n's other undecided checksummed dependencies
+                for e in self.topmost(n, ctx, {}, []):
+                    if e in ctx['obs'] and e not in ctx['ran'] and e not in ctx['done']:
+                        self.update(e, ctx)
                 return False
         ok = self.settle(n, ctx, s, why, forced)
         if ok is not None:
@@ -317,6 +330,12 @@ class Model:
 
     def run_script(self, n, ctx, why):
         p, r = self.p, self.R[n]
+        if ctx.get('abort_mode') and ctx['obs'] is not None and not self.observed_more(ctx, {n}):
+            # failing parallel command without --keep-going: a script that was not observed was simply not started any
+            # more because a failure was already known (schedule-dependent, C05); n keeps the state it had
+            ctx['done'][n] = False
+            ctx['not_started'].add(n)
+            return False
         ctx['ran'].append(n)
         ctx['reasons'][n] = why
         ctx['why_list'].append((n, why))
@@ -430,7 +449,7 @@ class Model:
 
     def new_ctx(self, keep=False, obs=None):
         return dict(ran=[], done={}, keep=keep, obs=obs, reasons={}, ambiguous=set(), maybe=set(),
-                    notrun_failed=set(), late=set(), stack=[], extra_new={}, why_list=[], rechecked=set(), absorbed=set())
+                    notrun_failed=set(), late=set(), stack=[], extra_new={}, why_list=[], rechecked=set(), absorbed=set(), not_started=set())
 
     def rounds_needed(self, n):
         """Pure: how many out-of-band rounds it takes, from the present state, until n can be judged."""
@@ -448,13 +467,14 @@ class Model:
             s, why = m.status(n, c, {})
         return rounds
 
-    def command(self, targets, forced=False, keep=False, obs=None, obsn=None, parallel=False):
+    def command(self, targets, forced=False, keep=False, obs=None, obsn=None, parallel=False, abort_mode=False):
         """One top-level `redo-ifchange targets...` (or `redo` when forced).  Returns (ok, ctx)."""
         start = self.copy() if (parallel and obs is not None) else None
         self.run += 1
         ctx = self.new_ctx(keep, obs)
         ctx['obsn'] = obsn
         ctx['start'] = start
+        ctx['abort_mode'] = abort_mode
         self.cur_ctx = ctx
         allok = True
         failed_known = False
